@@ -78,6 +78,11 @@ class LostWake:
                 ctx.count('unblocking_change:' + k)
         if not ready:
             return
+        if self.ctx.spec.get('long'):
+            # long histories: the (deep-copying) probe runs at every 10th instant that has a ready part
+            self.n_ready_instants = getattr(self, 'n_ready_instants', 0) + 1
+            if self.n_ready_instants % 10:
+                return
         self.instants_probed += 1
         ctx.count('instants_probed')
         world = self.m.world
